@@ -188,18 +188,24 @@ def match_known(known, pid, violation):
 # ---------------------------------------------------------------------------------------
 # replay and minimisation
 # ---------------------------------------------------------------------------------------
-def fails_same(prop, sc, oracle):
+def group_key(prop, sig):
+    gk = getattr(prop, "GROUP_KEYS", None)
+    return short_hash({k: sig[k] for k in sorted(sig) if gk is None or k in gk})
+
+
+def fails_same(prop, sc, oracle, key=None):
+    """Does the scenario fail the same oracle (and, if given, with the same signature class)?"""
     try:
         res = prop.execute(sc)
     except Exception:
         return None
     for v in res.violations:
-        if v.oracle == oracle:
+        if v.oracle == oracle and (key is None or group_key(prop, v.sig) == key):
             return res, v
     return None
 
 
-def minimise(prop, sc, oracle, known, pid, budget_runs=300, budget_s=60):
+def minimise(prop, sc, oracle, known, pid, key=None, budget_runs=300, budget_s=60):
     t0 = time.time()
     runs = 0
     cur = sc
@@ -210,7 +216,7 @@ def minimise(prop, sc, oracle, known, pid, budget_runs=300, budget_s=60):
             if runs >= budget_runs or time.time() - t0 > budget_s:
                 break
             runs += 1
-            got = fails_same(prop, cand, oracle)
+            got = fails_same(prop, cand, oracle, key)
             if got is None:
                 continue
             # never shrink an unknown violation into a known finding
@@ -299,8 +305,7 @@ def run_check(pid, tier, seed, workers=None, n_indices=None, wall_cap=None):
         if kf is not None:
             known_hits[kf["id"]] += 1
             continue
-        gk = getattr(prop, "GROUP_KEYS", None)
-        key = short_hash({k: v["sig"][k] for k in sorted(v["sig"]) if gk is None or k in gk})
+        key = group_key(prop, v["sig"])
         unknown.setdefault(key, []).append(fl)
 
     violation_lines = []
@@ -308,8 +313,8 @@ def run_check(pid, tier, seed, workers=None, n_indices=None, wall_cap=None):
     for key, fls in sorted(unknown.items())[:6]:
         fl = fls[0]
         v = fl["violations"][0]
-        sc_min, nruns = minimise(prop, fl["scenario"], v["oracle"], known, pid)
-        got = fails_same(prop, sc_min, v["oracle"])
+        sc_min, nruns = minimise(prop, fl["scenario"], v["oracle"], known, pid, key)
+        got = fails_same(prop, sc_min, v["oracle"], key)
         if got is None:  # should not happen: execution is deterministic
             raise HarnessError(f"minimised scenario for {v['oracle']} does not fail on re-execution")
         res_min, v_min = got
